@@ -110,8 +110,8 @@ LEVEL_NOTE = {
 TECHNIQUE = {
     "C17": "interprocedural taint analysis over MIR expression trees (sources: results of unresolved user-trait calls; sinks: unsafe extents; sanitisers: min / dominating guards)",
     "C15": "finite-domain (0..=255) value-set propagation through the byte comparisons in MIR joined with format templates from the expanded AST; provenance flow for serde",
-    "C01": "signature/impl-table scan of Bytes (effect property) + dominance rules for byte moves and re-basing over MIR provenance trees + token accounting",
-    "C04": "per-write justification rules over MIR provenance trees and dominating guards (A8), path enumeration of the reservation helper, arithmetic taint (E1)",
+    "C01": "signature/impl-table scan of Bytes (effect property) + dominance rules for byte moves and re-basing over MIR provenance trees + token accounting; abstract interpretation over the state at the end of each CFG path in a linear-inequality domain (len <= cap preserved, returned Vec length exact, length grows only over written bytes); upper-bound analysis of the tagged data word",
+    "C04": "per-write justification rules over MIR provenance trees and dominating guards (A8), path enumeration of the reservation helper, arithmetic taint (E1); entailment of reserve's promise and of len <= cap over the state at the end of every path (stores and Vec effects applied) in a linear-inequality domain with own Fourier-Motzkin emptiness test",
     "C07": "effect reachability over the crate call graph with vtable slots expanded to all bound functions; exemptions verified by dominating guards",
     "C08": "return-value flow of the is_unique slot functions cross-checked against the take-over paths of into_mut (path summaries) + dominating-guard analysis; "
            "abstract interpretation of the reservation helper in a linear-inequality domain (own Fourier-Motzkin emptiness test), one state per CFG path",
@@ -119,16 +119,16 @@ TECHNIQUE = {
            "hypotheses empty + sole owner + request <= allocation size: all paths to allocation calls / `return false` must be empty; "
            "path-sensitive linear-token accounting of references (A2)",
     "C03": "path-sensitive linear-token accounting over MIR (acyclic path enumeration with constant folding and tag-feasibility pruning, interprocedural event summaries)",
-    "C02": "precondition extraction from debug_assert!s of unsafe helpers + dominating-guard implication at every safe call site; shape rules for raw slices/writes; arithmetic taint",
-    "C13": "reachability from state-write sites to argument-dependent panic sites over MIR CFGs with interprocedural summaries; dominating-guard implication; arithmetic taint",
-    "C09": "path rule over MIR CFG: every entry->call path to a call on Chain.b carries an a-exhausted witness; shape rules for Take",
+    "C02": "precondition extraction from debug_assert!s of unsafe helpers + dominating-guard implication at every safe call site; shape rules for raw slices/writes; arithmetic taint; linear-inequality entailments over path end states (A16 A18); upper-bound (bit-field) analysis of the tagged data word (A17); effect analysis of debug-only regions",
+    "C13": "reachability from state-write sites to argument-dependent panic sites over MIR CFGs with interprocedural summaries; dominating-guard implication; arithmetic taint; linear-inequality entailments (shrink-or-fill for set_len/advance_mut; callee panic sites judged in inlined views)",
+    "C09": "path rule over MIR CFG: every entry->call path to a call on Chain.b carries an a-exhausted witness; shape rules for Take; path-sensitive conservation check (amounts taken from both halves add up) in the linear domain; Err-path atomicity of try_* readers",
     "C12": "shape + path rules over MIR for the adapters' arithmetic (min, truncation, paired decrement, Chain order, Reader/Writer transfer)",
     "C05": "role classification of all atomic sites + dominance of free/take-over events by the deciding RMW edge (MIR CFG dominators, interprocedural over call sites)",
     "C06": "ordering-by-role conformance at all atomic sites (release/acquire recipe) + dominating Acquire-guard analysis for take-over events",
     "C14": "MIR orientation/delegation analysis over rustc-resolved callees (custom rustc_private driver)",
-    "C10": "name-grammar vs decode-signature agreement over MIR callees, sibling agreement get/try_get, taint+guard analysis of overflow asserts",
+    "C10": "name-grammar vs decode-signature agreement over MIR callees, sibling agreement get/try_get, taint+guard analysis of overflow asserts; path rule: every Err path of a try_* reader precedes all consuming calls, every Ok path consumes exactly once",
     "C11": "name-grammar vs encode-signature agreement over MIR callees, taint+guard analysis of overflow asserts",
-    "C16": "taint + dominating-guard analysis of every MIR overflow/shift assert (profile-dependent arithmetic)",
+    "C16": "taint + dominating-guard analysis of every MIR overflow/shift assert (profile-dependent arithmetic); effect analysis of debug-only regions (E5); quick tier analyses the release-like, no_std and portable-atomic configurations",
 }
 LEVEL_NOTE["C17"] = ("trusted: slices returned by safe user code have their real length; BufMut is an unsafe trait (its implementors are trusted). NOT decided: "
                       "leak-freedom when user code panics at arbitrary points (unwinding paths are analysed for from_owner only).")
